@@ -1578,6 +1578,8 @@ class Interp:
             self.models_used.add("stub:vec_repeat")
             return self.overrides["vec_repeat"](self, [el, n], pc), env, pc
         if isinstance(el, VChar):
+            # a Vec<u8> longer than isize::MAX cannot be allocated: std panics with "capacity overflow"
+            self.panic(z3.And(pc, ugt(n.e, bv((1 << 63) - 1))), "vec![_; n]: capacity overflow (n > isize::MAX) at line %s" % e.get("line"))
             # vec![0u8; n]: a byte buffer of symbolic length (capacity = buffer_cap)
             self.unwind(z3.And(pc, ugt(n.e, bv(self.buffer_cap))), "vec![_; n] longer than %d (line %s)" % (self.buffer_cap, e.get("line")))
             return VStr(BStr([el.e] * self.buffer_cap, n.e)), env, pc
